@@ -82,10 +82,11 @@ def make_archive(case):
     for s, sess in enumerate(case["sessions"]):
         bio.seek(0)
         filt = roundtrip.make_filters(sess["chain"], R, params=False) if sess.get("chain") else None
-        z = py7zr.SevenZipFile(bio, "w" if s == 0 else "a", filters=filt, password=pw)
+        spw = sess["password"] if "password" in sess else pw      # sessions may differ in whether they encrypt
+        z = py7zr.SevenZipFile(bio, "w" if s == 0 else "a", filters=filt, password=spw)
         if sess.get("header") == "raw":
             z.set_encoded_header_mode(False)
-        elif sess.get("header") == "encrypted" and pw:
+        elif sess.get("header") == "encrypted" and spw:
             z.set_encrypted_header(True)
         for k, m in enumerate(sess["members"]):
             name = f"s{s}/{['a', 'ü', '日本', 'sp ace', 'e\U0001F600moji', '\U00020BB7x\U00010348'][k % 6]}{k}"
@@ -193,6 +194,12 @@ def run(tier, rep, ev):
         pool = [c for c in chains if ("AES" in c) == bool(pw) and "PPMd" not in c]
         add([{"chain": R.choice(pool) if R.random() < 0.8 else None, "header": R.choice(["encoded", "raw"] + (["encrypted"] if pw else [])),
               "members": R.choice(mlists)} for _ in range(ns)], pw)
+    # sessions that differ in encryption (plain then password, password then plain, alternating): the packed-stream digest vector and
+    # the stream count must keep agreeing across sessions (seed C07-7)
+    for k in range(24 if tier == "quick" else 240):
+        pat = [[None, "pw"], ["pw", None], [None, "pw", None], ["pw", None, "pw"], [None, None, "pw"], ["pw", "pw", None]][k % 6]
+        add([{"chain": None if (k // 6) % 2 == 0 else R.choice([c for c in chains if ("AES" in c) == bool(p) and "PPMd" not in c]),
+              "password": p, "header": R.choice(["encoded", "raw"]), "members": R.choice(mlists[:11])} for p in pat], "pw")
     outs = sandbox.run_cases(check_case, cases, timeout=120, nproc=16)
     traces, origins = [], []
     for c, o in zip(cases, outs):
